@@ -405,8 +405,18 @@ func inlineOne(f *Function, call *Call, g *Function) {
 	}
 	f.Blocks = blocks
 	rebuild(f)
-	if threadNilTest(f, k) || splitReturn(f, k) {
+	cur := k
+	for iter := 0; iter < 4 && cur != nil; iter++ {
+		if threadNilTest(f, cur) || splitReturn(f, cur) {
+			rebuild(f)
+			break
+		}
+		m := mergePhiJump(f, cur)
+		if m == nil {
+			break
+		}
 		rebuild(f)
+		cur = m
 	}
 	// a local whose address was only taken to hand it to the helper (takeKey(&stream, n)) is a plain
 	// register again once the helper is inlined
@@ -542,7 +552,58 @@ func nilness(v Value) int {
 			switch g.String() {
 			case "github.com/pkg/errors.Errorf", "github.com/pkg/errors.New", "errors.New", "fmt.Errorf":
 				return +1
+			case "github.com/pkg/errors.Wrapf", "github.com/pkg/errors.Wrap", "github.com/pkg/errors.WithMessage", "github.com/pkg/errors.WithMessagef", "github.com/pkg/errors.WithStack":
+				// nil exactly when the wrapped error is nil
+				if len(x.Call.Args) > 0 {
+					if n := nilness(x.Call.Args[0]); n != 0 {
+						return n
+					}
+					return nilnessAt(x.Call.Args[0], x.Block())
+				}
 			}
+		}
+	}
+	return 0
+}
+
+// nilnessAt decides v at the end of block b from the nil tests of v that dominate b.
+func nilnessAt(v Value, b *BasicBlock) int {
+	for x := b; x != nil; x = x.Idom() {
+		if len(x.Preds) != 1 {
+			continue
+		}
+		q := x.Preds[0]
+		iff, ok := q.Instrs[len(q.Instrs)-1].(*If)
+		if !ok || q.Succs[0] == q.Succs[1] {
+			continue
+		}
+		cmp, ok := iff.Cond.(*BinOp)
+		if !ok {
+			continue
+		}
+		isNilC := func(w Value) bool { c, ok := w.(*Const); return ok && c.Value == nil }
+		var other Value
+		switch {
+		case cmp.X == v && isNilC(cmp.Y):
+			other = cmp.Y
+		case cmp.Y == v && isNilC(cmp.X):
+			other = cmp.X
+		}
+		if other == nil {
+			continue
+		}
+		onTrue := q.Succs[0] == x
+		switch cmp.Op.String() {
+		case "==":
+			if onTrue {
+				return -1
+			}
+			return +1
+		case "!=":
+			if onTrue {
+				return +1
+			}
+			return -1
 		}
 	}
 	return 0
@@ -585,7 +646,7 @@ func threadNilTest(f *Function, k *BasicBlock) bool {
 		tested, _ = cmp.Y.(*Phi)
 	}
 	if tested == nil || tested.block != k {
-		return false
+		return threadConstEdges(f, k)
 	}
 	eq := cmp.Op.String() == "=="
 	if !eq && cmp.Op.String() != "!=" {
@@ -593,14 +654,17 @@ func threadNilTest(f *Function, k *BasicBlock) bool {
 	}
 	T := [2]*BasicBlock{k.Succs[0], k.Succs[1]}
 	if T[0] == T[1] || len(T[0].Preds) != 1 || len(T[1].Preds) != 1 {
-		return false
+		return threadConstEdges(f, k)
 	}
 	// decide every edge
 	target := make([]int, len(k.Preds))
 	for i := range k.Preds {
 		n := nilness(tested.Edges[i])
 		if n == 0 {
-			return false
+			n = nilnessAt(tested.Edges[i], k.Preds[i])
+		}
+		if n == 0 {
+			return threadConstEdges(f, k)
 		}
 		condTrue := (n < 0) == eq
 		if condTrue {
@@ -761,4 +825,236 @@ func removeUnreachable(f *Function) {
 		}
 	}
 	f.Blocks = kept
+}
+
+
+// threadConstEdges: partial threading. k: φ...; c = φ op const; if c. An incoming edge whose φ operand is
+// a constant decides the test; it is sent straight to the successor, provided that successor has no φ-nodes
+// and uses no φ of k. If a single edge remains, the φ-nodes of k collapse to their operand.
+func threadConstEdges(f *Function, k *BasicBlock) bool {
+	if len(k.Instrs) < 3 || len(k.Preds) < 2 || len(k.Succs) != 2 || k.Succs[0] == k.Succs[1] {
+		return false
+	}
+	iff, ok := k.Instrs[len(k.Instrs)-1].(*If)
+	if !ok {
+		return false
+	}
+	cmp, ok := iff.Cond.(*BinOp)
+	if !ok || cmp.block != k || len(*cmp.Referrers()) != 1 || k.Instrs[len(k.Instrs)-2] != Instruction(cmp) {
+		return false
+	}
+	var phis []*Phi
+	for _, ins := range k.Instrs[:len(k.Instrs)-2] {
+		p, ok := ins.(*Phi)
+		if !ok {
+			return false
+		}
+		phis = append(phis, p)
+	}
+	var tested *Phi
+	var kc *Const
+	if p, ok := cmp.X.(*Phi); ok && p.block == k {
+		tested = p
+		kc, _ = cmp.Y.(*Const)
+	} else if p, ok := cmp.Y.(*Phi); ok && p.block == k {
+		tested = p
+		kc, _ = cmp.X.(*Const)
+	}
+	op := cmp.Op.String()
+	if tested == nil || kc == nil || (op != "==" && op != "!=") {
+		return false
+	}
+	equalConst := func(a, b *Const) (bool, bool) {
+		if a.Value == nil || b.Value == nil {
+			if a.Value == nil && b.Value == nil {
+				return true, true
+			}
+			return false, false
+		}
+		if a.Value.Kind() != b.Value.Kind() {
+			return false, false
+		}
+		return a.Value.ExactString() == b.Value.ExactString(), true
+	}
+	dominatedBy := func(b, t *BasicBlock) bool {
+		for x := b; x != nil; x = x.Idom() {
+			if x == t {
+				return true
+			}
+		}
+		return false
+	}
+	usesPhiIn := func(t *BasicBlock) bool {
+		var rands []*Value
+		for _, p := range phis {
+			for _, u := range *p.Referrers() {
+				if u == Instruction(cmp) {
+					continue
+				}
+				if up, isPhi := u.(*Phi); isPhi {
+					rands = u.Operands(rands[:0])
+					for oi, r := range rands {
+						if *r == Value(p) && oi < len(up.block.Preds) && dominatedBy(up.block.Preds[oi], t) {
+							return true
+						}
+					}
+					continue
+				}
+				if dominatedBy(u.Block(), t) {
+					return true
+				}
+			}
+		}
+		return false
+	}
+	changed := false
+	for i := 0; i < len(k.Preds); i++ {
+		if len(k.Preds) < 2 {
+			break
+		}
+		ec, ok := tested.Edges[i].(*Const)
+		if !ok {
+			continue
+		}
+		same, decided := equalConst(ec, kc)
+		if !decided {
+			continue
+		}
+		condTrue := same == (op == "==")
+		t := k.Succs[1]
+		if condTrue {
+			t = k.Succs[0]
+		}
+		if len(t.Instrs) > 0 {
+			if _, isPhi := t.Instrs[0].(*Phi); isPhi {
+				continue
+			}
+		}
+		if usesPhiIn(t) {
+			continue
+		}
+		p := k.Preds[i]
+		for si, sblk := range p.Succs {
+			if sblk == k {
+				p.Succs[si] = t
+			}
+		}
+		t.Preds = append(t.Preds, p)
+		k.Preds = append(k.Preds[:i:i], k.Preds[i+1:]...)
+		for _, ph := range phis {
+			ph.Edges = append(ph.Edges[:i:i], ph.Edges[i+1:]...)
+		}
+		i--
+		changed = true
+	}
+	if !changed {
+		return false
+	}
+	if len(k.Preds) == 1 {
+		// the φ-nodes collapse
+		var rands []*Value
+		for _, ph := range phis {
+			nv := ph.Edges[0]
+			for _, blk := range f.Blocks {
+				for _, ins := range blk.Instrs {
+					rands = ins.Operands(rands[:0])
+					for _, r := range rands {
+						if *r == Value(ph) {
+							*r = nv
+						}
+					}
+				}
+			}
+		}
+		k.Instrs = k.Instrs[len(phis):]
+	}
+	return true
+}
+
+
+// mergePhiJump folds a block that holds only φ-nodes and a jump into its successor, when those φ-nodes are
+// used by nothing but the successor's φ-nodes on that very edge: the successor then merges the original
+// predecessors directly (r = φ(φ(a, b), c) becomes r = φ(a, b, c)). Returns the successor, or nil.
+func mergePhiJump(f *Function, k *BasicBlock) *BasicBlock {
+	if len(k.Instrs) < 1 || len(k.Succs) != 1 || len(k.Preds) < 1 {
+		return nil
+	}
+	if _, ok := k.Instrs[len(k.Instrs)-1].(*Jump); !ok {
+		return nil
+	}
+	m := k.Succs[0]
+	if m == k {
+		return nil
+	}
+	j := -1
+	n := 0
+	for i, p := range m.Preds {
+		if p == k {
+			j = i
+			n++
+		}
+	}
+	if j < 0 || n != 1 {
+		return nil
+	}
+	phis := map[Value]*Phi{}
+	for _, ins := range k.Instrs[:len(k.Instrs)-1] {
+		p, ok := ins.(*Phi)
+		if !ok {
+			return nil
+		}
+		phis[p] = p
+	}
+	for _, p := range phis {
+		for _, u := range *p.Referrers() {
+			up, ok := u.(*Phi)
+			if !ok || up.block != m {
+				return nil
+			}
+			for oi, e := range up.Edges {
+				if e == Value(p) && oi != j {
+					return nil
+				}
+			}
+		}
+	}
+	for _, ins := range m.Instrs {
+		mp, ok := ins.(*Phi)
+		if !ok {
+			break
+		}
+		val := mp.Edges[j]
+		var mid []Value
+		for i := range k.Preds {
+			if kp, ok := phis[val]; ok {
+				mid = append(mid, kp.Edges[i])
+			} else {
+				mid = append(mid, val)
+			}
+		}
+		edges := append([]Value{}, mp.Edges[:j]...)
+		edges = append(edges, mid...)
+		edges = append(edges, mp.Edges[j+1:]...)
+		mp.Edges = edges
+	}
+	preds := append([]*BasicBlock{}, m.Preds[:j]...)
+	preds = append(preds, k.Preds...)
+	preds = append(preds, m.Preds[j+1:]...)
+	m.Preds = preds
+	for _, p := range k.Preds {
+		for si, sblk := range p.Succs {
+			if sblk == k {
+				p.Succs[si] = m
+			}
+		}
+	}
+	k.Preds, k.Succs = nil, nil
+	var blocks []*BasicBlock
+	for _, b := range f.Blocks {
+		if b != k {
+			blocks = append(blocks, b)
+		}
+	}
+	f.Blocks = blocks
+	return m
 }
